@@ -9,6 +9,7 @@
 package remux
 
 import (
+	"bytes"
 	"encoding/hex"
 	"math/rand"
 	"time"
@@ -155,8 +156,11 @@ func (r *Rtmp2RtspRemuxer) FeedRtmpMsg(msg base.RtmpMsg) {
 	// 正常阶段
 
 	// 音视频头已通过sdp回调，rtp数据中不再包含音视频头
-	// TODO(chef): [opt] RtspRemuxerAddSpsPps2KeyFrameFlag 开启时，考虑更新sps 202207
-	if msg.IsAvcKeySeqHeader() || msg.IsHevcKeySeqHeader() || msg.IsAacSeqHeader() {
+	if msg.IsAvcKeySeqHeader() || msg.IsHevcKeySeqHeader() {
+		r.updateVideoSeqHeader(msg)
+		return
+	}
+	if msg.IsAacSeqHeader() {
 		return
 	}
 
@@ -194,21 +198,7 @@ func (r *Rtmp2RtspRemuxer) doAnalyze() {
 		}
 
 		// 回调sdp
-		videoInfo := sdp.VideoInfo{
-			VideoPt: r.videoPt,
-			Vps:     r.vps,
-			Sps:     r.sps,
-			Pps:     r.pps,
-		}
-
-		audioInfo := sdp.AudioInfo{
-			AudioPt:           r.audioPt,
-			Asc:               r.asc,
-			SamplingFrequency: r.audioSampleRate,
-		}
-		ctx, err := sdp.Pack(videoInfo, audioInfo)
-		Log.Assert(nil, err)
-		r.onSdp(ctx)
+		r.callbackSdp()
 
 		// 分析阶段缓存的数据
 		for i := range r.msgCache {
@@ -218,6 +208,61 @@ func (r *Rtmp2RtspRemuxer) doAnalyze() {
 
 		r.analyzeDone = true
 	}
+}
+
+func (r *Rtmp2RtspRemuxer) callbackSdp() {
+	videoInfo := sdp.VideoInfo{
+		VideoPt: r.videoPt,
+		Vps:     r.vps,
+		Sps:     r.sps,
+		Pps:     r.pps,
+	}
+
+	audioInfo := sdp.AudioInfo{
+		AudioPt:           r.audioPt,
+		Asc:               r.asc,
+		SamplingFrequency: r.audioSampleRate,
+	}
+	ctx, err := sdp.Pack(videoInfo, audioInfo)
+	Log.Assert(nil, err)
+	r.onSdp(ctx)
+}
+
+// updateVideoSeqHeader
+//
+// A video sequence header after the analyze stage: sessions that are playing cannot be described again, but
+// whoever sends DESCRIBE from now on has to be given the parameter sets that are in force now, not those of
+// the first sequence header - the key frame it starts with is coded against the new ones.
+//
+// Only the parameter sets of the video track that was described can be replaced; a track or codec that
+// shows up now cannot be brought into the rtp sessions that are running.
+func (r *Rtmp2RtspRemuxer) updateVideoSeqHeader(msg base.RtmpMsg) {
+	var vps, sps, pps []byte
+	var err error
+
+	payload := msg.Clone().Payload
+	switch {
+	case msg.IsAvcKeySeqHeader() && r.videoPt == base.AvPacketPtAvc:
+		sps, pps, err = avc.ParseSpsPpsFromSeqHeader(payload)
+	case msg.IsHevcKeySeqHeader() && r.videoPt == base.AvPacketPtHevc:
+		if msg.IsEnhanced() {
+			vps, sps, pps, err = hevc.ParseVpsSpsPpsFromEnhancedSeqHeader(payload)
+		} else {
+			vps, sps, pps, err = hevc.ParseVpsSpsPpsFromSeqHeader(payload)
+		}
+	default:
+		return
+	}
+	if err != nil {
+		Log.Warnf("parse video seq header failed, keep the previous one. err=%+v", err)
+		return
+	}
+	if bytes.Equal(vps, r.vps) && bytes.Equal(sps, r.sps) && bytes.Equal(pps, r.pps) {
+		return
+	}
+
+	r.vps, r.sps, r.pps = vps, sps, pps
+	r.callbackSdp()
 }
 
 // 是否应该退出Analyze阶段
